@@ -260,12 +260,12 @@ def capture_across_switch_scenarios():
             b.print(tup(b.v("below"), b.v("x"), call(b.v("get")), b.v("above")))
 
         if home == "fiber-body":
-            b.fn("body", []); scope_body(); b.ret(lit("body done")); b.end()
+            b.fn("body", ["arg0"]); scope_body(); b.ret(lit("body done")); b.end()
         elif home == "fiber-block":
-            b.fn("body", []); b.var("outer", lit("outer")); b.block(); scope_body(); b.end(); b.print(b.v("outer")); b.ret(lit("body done")); b.end()
+            b.fn("body", ["arg0"]); b.var("outer", lit("outer")); b.block(); scope_body(); b.end(); b.print(b.v("outer")); b.ret(lit("body done")); b.end()
         elif home == "fiber-callee":
             b.fn("worker", []); scope_body(); b.ret(lit("worker done")); b.end()
-            b.fn("body", []); b.var("mine", lit("body local")); b.print(call(b.v("worker"))); b.print(b.v("mine")); b.ret(lit("body done")); b.end()
+            b.fn("body", ["arg0"]); b.var("mine", lit("body local")); b.print(call(b.v("worker"))); b.print(b.v("mine")); b.ret(lit("body done")); b.end()
         if home.startswith("fiber"):
             b.var("fb", inv(F(), "new", b.v("body")))
             b.var("round", lit(0))
